@@ -34,7 +34,8 @@ type Program struct {
 	LoadS   float64
 	NFiles  int
 
-	facts map[*ssa.Function]*FuncFacts
+	facts   map[*ssa.Function]*FuncFacts
+	getters map[*ssa.Function]getterInfo
 }
 
 func repoDir() string {
@@ -65,7 +66,7 @@ func Load(overlay map[string][]byte, env []string) (*Program, error) {
 	if len(pkgs) == 0 {
 		return nil, fmt.Errorf("no packages loaded from %s", dir)
 	}
-	p := &Program{RepoDir: dir, ByPath: map[string]*packages.Package{}, facts: map[*ssa.Function]*FuncFacts{}}
+	p := &Program{RepoDir: dir, ByPath: map[string]*packages.Package{}, facts: map[*ssa.Function]*FuncFacts{}, getters: map[*ssa.Function]getterInfo{}}
 	var errs []string
 	packages.Visit(pkgs, nil, func(pk *packages.Package) {
 		p.ByPath[pk.PkgPath] = pk
